@@ -102,13 +102,6 @@ MatFromMatSources(C, R, C2, R2) ==                                              
     [i \in 1..C*R |-> LET c == ColOf(R, i) r == RowOf(R, i)
                       IN IF c < C2 /\ r < R2 THEN SArg(1, MatIdx(R2, c, r)) ELSE SConst(IF c = r THEN 1 ELSE 0)]
 
-(* Known deviation KD-C17-mat4x4-from-mat4x2-ignores-columns-2-3: mat<4,4,T,Q>(mat<4,2,T,Q> const& m) copies m[0] and m[1] only and
-   fills columns 2 and 3 with the identity (type_mat4x4.inl: the initialiser list of the mat<2,x> conversions), although the
-   source has four columns.  Pinned exactly: the result is the conversion of the leading two columns. *)
-KD_Mat4x4FromMat4x2Sources ==
-    [i \in 1..16 |-> LET c == ColOf(4, i) r == RowOf(4, i)
-                     IN IF c < 2 /\ r < 2 THEN SArg(1, MatIdx(2, c, r)) ELSE SConst(IF c = r THEN 1 ELSE 0)]
-
 (* quaternions, listed w, x, y, z *)
 QuaWxyzSources == <<SArg(1, 1), SArg(2, 1), SArg(3, 1), SArg(4, 1)>>       \* qua(w, x, y, z), qua::wxyz(w, x, y, z)
 QuaSVecSources == <<SArg(1, 1), SArg(2, 1), SArg(2, 2), SArg(2, 3)>>       \* qua(s, vec3)
